@@ -852,6 +852,8 @@ fn parse_struct_literal(
             break;
         }
 
+        let iteration_start = p.token_idx;
+
         let field_m = p.start();
         let _guard = p.expected_syntax_name("field name");
         p.expect_with_no_skip(TokenKind::Ident);
@@ -876,6 +878,12 @@ fn parse_struct_literal(
 
         if !p.at(TokenKind::RBrace) {
             p.expect_with_no_skip(TokenKind::Comma);
+        }
+
+        // the next token belongs to an enclosing construct (it is in the recovery set):
+        // nothing was consumed, so looping again would never terminate
+        if p.token_idx == iteration_start {
+            break;
         }
     }
     p.expect_with_recovery_set(TokenKind::RBrace, recovery_set);
@@ -985,6 +993,8 @@ fn parse_array_literal(
             break;
         }
 
+        let iteration_start = p.token_idx;
+
         if let Some(item) = parse_expr_with_recovery_set(p, "array item", recovery_set) {
             item.precede(p).complete(p, NodeKind::ArrayItem);
         }
@@ -995,6 +1005,11 @@ fn parse_array_literal(
 
         if !p.at(TokenKind::RBrack) && !p.at(TokenKind::RBrace) {
             p.expect_with_no_skip(TokenKind::Comma);
+        }
+
+        // see parse_struct_literal
+        if p.token_idx == iteration_start {
+            break;
         }
     }
     p.expect_with_recovery_set_no_default(TokenKind::RBrack, DEFAULT_NO_BRACES);
@@ -1157,6 +1172,8 @@ fn parse_switch(p: &mut Parser, recovery_set: TokenSet) -> CompletedMarker {
                 break;
             }
 
+            let iteration_start = p.token_idx;
+
             let arm_m = p.start();
             // todo: catch shorthand cases where the dot is missing
             if p.at(TokenKind::Dot) {
@@ -1193,6 +1210,11 @@ fn parse_switch(p: &mut Parser, recovery_set: TokenSet) -> CompletedMarker {
             // attach themselves to the last block as paths
             if !p.at(TokenKind::RBrace) || p.at(TokenKind::Comma) {
                 p.expect_with_no_skip(TokenKind::Comma);
+            }
+
+            // see parse_struct_literal
+            if p.token_idx == iteration_start {
+                break;
             }
         }
 
